@@ -6,6 +6,7 @@ export PYTHONHASHSEED=0
 /venv/bin/python translate/t1_tables.py "${VERIF_REPO:-/repo}" coq/Gen
 cd coq
 coq_makefile -f _CoqProject -o Makefile >/dev/null
-timeout 3000 make -j16 2>&1 | grep -v "^COQDEP\|^COQC" | tail -40
-test -f Props/C17.vo
+timeout 3000 make -j16 > .build.log 2>&1 || { tail -40 .build.log; echo "setup FAILED: make"; exit 1; }
+grep -c "Closed under the global context" .build.log || true
+for f in Props/C*.v; do test -f "${f%.v}.vo" || { echo "setup FAILED: $f not built"; exit 1; }; done
 echo "setup ok"
